@@ -219,6 +219,21 @@ theorem sameCore_setRegisterPrice (l l' : Ledger) (p : Int) (w : Bool) (h : setR
     · simp at h
     · injection h with h; subst h; exact ⟨rfl, rfl, rfl, rfl, rfl, rfl, rfl⟩
 
+theorem sameCore_designateNotary (e : Env) (l l' : Ledger) (ns : List Nat) (w : Bool) (h : designateNotary e l ns w = some l') :
+    sameCore l l' ∧ l'.events = l.events := by
+  unfold designateNotary at h
+  split at h
+  · simp at h
+  · split at h
+    · simp at h
+    · split at h
+      · simp at h
+      · split at h
+        · simp at h
+        · split at h
+          · simp at h
+          · injection h with h; subst h; exact ⟨⟨rfl, rfl, rfl, rfl, rfl, rfl, rfl⟩, rfl⟩
+
 /-! ### genesis -/
 
 theorem empty_inv (nt : Nat) (l0 : Ledger) (h1 : l0.neo = []) (h2 : l0.gas = []) (h3 : l0.cands = []) (h4 : l0.deps = [])
